@@ -38,6 +38,7 @@ type ccOpt struct {
 	selector     *metav1.LabelSelector
 	ignoreStatus bool
 	fieldPaths   []string
+	emptyHistory bool // a revisionHistory block without any field path (documented to mean the default, [spec])
 	etag         bool
 	strict       bool
 	resyncSec    *int32
@@ -90,6 +91,8 @@ func (o ccOpt) build() *v1alpha1.CompositeController {
 	}
 	if len(o.fieldPaths) > 0 {
 		cc.Spec.ParentResource.RevisionHistory = &v1alpha1.CompositeControllerRevisionHistory{FieldPaths: o.fieldPaths}
+	} else if o.emptyHistory {
+		cc.Spec.ParentResource.RevisionHistory = &v1alpha1.CompositeControllerRevisionHistory{FieldPaths: []string{}}
 	}
 	for _, ck := range o.children {
 		rule := v1alpha1.CompositeControllerChildResourceRule{ResourceRule: v1alpha1.ResourceRule{APIVersion: ck.APIVersion(), Resource: ck.Resource}}
